@@ -56,11 +56,31 @@ impl LspProject {
                     .collect());
             }
 
-            return Ok(result
+            let mut tokens: Vec<SemanticToken> = result
                 .0
                 .into_iter()
                 .filter_map(|tok| LspTokenType(tok).into())
-                .collect());
+                .collect();
+
+            // The protocol encodes the position of each token relative to the
+            // token before it: the line as the number of lines in between and
+            // the start relative to the previous start when on the same line.
+            let mut prev_line = 0;
+            let mut prev_start = 0;
+            for token in tokens.iter_mut() {
+                let line = token.delta_line;
+                let start = token.delta_start;
+                token.delta_line = line - prev_line;
+                token.delta_start = if line == prev_line {
+                    start - prev_start
+                } else {
+                    start
+                };
+                prev_line = line;
+                prev_start = start;
+            }
+
+            return Ok(tokens);
         } else {
             error!("URL must be convertible to a file path {}", url);
         }
